@@ -43,6 +43,9 @@ static void eval_expr(unsigned expr, Stmt&& st, SU_vector& s1, SU_vector& s2, do
     case 18: st(ElementwiseProduct(s1,std::move(s2))); break;
     case 19: st(ElementwiseProduct(std::move(s1),std::move(s2))); break;
     case 20: st(ElementwiseOperation(user_op(),s1,s2)); break;
+    case 21: st(ElementwiseOperation(user_op(),s1,std::move(s2))); break;
+    case 22: st(ElementwiseOperation(user_op(),std::move(s1),s2)); break;
+    case 23: st(ElementwiseOperation(user_op(),std::move(s1),std::move(s2))); break;
     default: throw 42;
   }
 }
